@@ -300,7 +300,13 @@ TSectioned == /\ l <= Len(T) /\ Ev.ev = "sectioned"
               /\ Check("include_splices_the_same_actions", Ev.same_actions)
               /\ Check("include_splices_the_same_instance_values", Ev.same_values)
               /\ l' = l + 1 /\ UNCHANGED <<rpvars, tid>>
-TNext == TRow \/ TRowsDone \/ TRef \/ TEnd \/ TSectioned
+\* A form outside the modelled row fragment (loops, ...): no model state to compare with, but what C02 demands of the emitted
+\* document is stated on the document alone - closure, uniqueness, one bind and one control per node - and is decided here.
+TFree == /\ l <= Len(T) /\ Ev.ev = "free"
+         /\ Check("free_form_no_crash", Ev.status \in {"ok", "pyxform_error"})
+         /\ ((Prop = "C02" /\ Ev.status = "ok") => C02Env)
+         /\ l' = l + 1 /\ UNCHANGED <<rpvars, tid>>
+TNext == TRow \/ TRowsDone \/ TRef \/ TEnd \/ TSectioned \/ TFree
 TSpec == TInit /\ [][TNext]_tvars
 
 Accepted == (l = Len(T) + 1) => PrintT(<<"ACCEPT", tid>>)
